@@ -472,7 +472,7 @@ fn two_step_splits(ids: &[u64]) -> Vec<(Vec<u64>, Vec<u64>)> {
     out
 }
 
-fn inst_family(tier: Tier) -> Vec<InstRep> {
+pub fn inst_family(tier: Tier) -> Vec<InstRep> {
     let t = tier == Tier::Thorough;
     let small = family_small();
     let objs: Vec<Option<FnRep>> = std::iter::once(None)
